@@ -3,7 +3,9 @@
     time shifts e(k) incl. nested shifts, steady-state references e.ss, unary minus, plus, minus, times.
     Three interpreters: steady state (Ignore classes), finite time path (Displace with both paddings), and the
     derivative accumulator (AccumulatedDerivative with its dict semantics and sparsity threshold).
-    Division, powers and applied functions are outside this model (oracle only). *)
+    Also: division (every scalar / accumulator combination of __truediv__ / __rtruediv__) and powers with a positive
+    integer exponent (__pow__ with a scalar).  Real exponents, scalar ** expr, expr ** expr (logarithms) and applied
+    functions are outside this model (oracle only). *)
 From Coq Require Import ZArith Bool List.
 From SSJ Require Import Lib.Sums Model.Shift Model.Sparse Gen.MultiplyBasis Gen.ComputeL.
 Import ListNotations.
@@ -11,12 +13,16 @@ Open Scope Z_scope.
 
 Section SimpleBlk.
 Variable R : Type.
-Variables (rO rI : R) (radd rmul rsub : R -> R -> R) (ropp : R -> R).
+Variables (rO rI : R) (radd rmul rsub : R -> R -> R) (ropp : R -> R) (rdiv : R -> R -> R).
 Variable tiny : R -> bool.
 
 Inductive expr :=
 | EVar (x : nat) | ENum (c : R) | EShift (k : Z) (e : expr) | ESs (e : expr)
-| ENeg (e : expr) | EAdd (a b : expr) | ESub (a b : expr) | EMul (a b : expr).
+| ENeg (e : expr) | EAdd (a b : expr) | ESub (a b : expr) | EMul (a b : expr)
+| EDiv (a b : expr) | EPow (a : expr) (n : nat).      (* EPow a n  is  a ** (n+1) *)
+
+Fixpoint rpow (x : R) (n : nat) : R := match n with O => rI | S n' => rmul x (rpow x n') end.
+Fixpoint nat_r (n : nat) : R := match n with O => rO | S n' => radd rI (nat_r n') end.
 
 (** steady-state evaluation (every input wrapped by ignore(): shifts and .ss are no-ops) *)
 Fixpoint eval_ss (ss : nat -> R) (e : expr) : R :=
@@ -24,6 +30,7 @@ Fixpoint eval_ss (ss : nat -> R) (e : expr) : R :=
   | EVar x => ss x | ENum c => c | EShift _ e => eval_ss ss e | ESs e => eval_ss ss e
   | ENeg e => ropp (eval_ss ss e) | EAdd a b => radd (eval_ss ss a) (eval_ss ss b)
   | ESub a b => rsub (eval_ss ss a) (eval_ss ss b) | EMul a b => rmul (eval_ss ss a) (eval_ss ss b)
+  | EDiv a b => rdiv (eval_ss ss a) (eval_ss ss b) | EPow a n => rpow (eval_ss ss a) (S n)
   end.
 
 (** value of an expression at the INITIAL steady state, as carried by Displace.ss_initial: inputs at their initial
@@ -33,6 +40,7 @@ Fixpoint eval_ssi (ss ssi : nat -> R) (e : expr) : R :=
   | EVar x => ssi x | ENum c => c | EShift _ e => eval_ssi ss ssi e | ESs e => eval_ss ss e
   | ENeg e => ropp (eval_ssi ss ssi e) | EAdd a b => radd (eval_ssi ss ssi a) (eval_ssi ss ssi b)
   | ESub a b => rsub (eval_ssi ss ssi a) (eval_ssi ss ssi b) | EMul a b => rmul (eval_ssi ss ssi a) (eval_ssi ss ssi b)
+  | EDiv a b => rdiv (eval_ssi ss ssi a) (eval_ssi ss ssi b) | EPow a n => rpow (eval_ssi ss ssi a) (S n)
   end.
 
 (** time-path evaluation: Displace.__call__(k) pads with the expression's initial steady-state value before
@@ -52,6 +60,8 @@ Fixpoint eval_td (T : option Z) (ss ssi : nat -> R) (env : nat -> Z -> R) (e : e
   | EAdd a b => radd (eval_td T ss ssi env a t) (eval_td T ss ssi env b t)
   | ESub a b => rsub (eval_td T ss ssi env a t) (eval_td T ss ssi env b t)
   | EMul a b => rmul (eval_td T ss ssi env a t) (eval_td T ss ssi env b t)
+  | EDiv a b => rdiv (eval_td T ss ssi env a t) (eval_td T ss ssi env b t)
+  | EPow a n => rpow (eval_td T ss ssi env a t) (S n)
   end.
 
 (** the formal (dual-number) derivative of the infinite time-path map at the steady state with respect to
@@ -66,6 +76,9 @@ Fixpoint deriv (ss : nat -> R) (x0 : nat) (s : Z) (e : expr) (t : Z) : R :=
   | EAdd a b => radd (deriv ss x0 s a t) (deriv ss x0 s b t)
   | ESub a b => rsub (deriv ss x0 s a t) (deriv ss x0 s b t)
   | EMul a b => radd (rmul (deriv ss x0 s a t) (eval_ss ss b)) (rmul (eval_ss ss a) (deriv ss x0 s b t))
+  | EDiv a b => rdiv (rsub (rmul (deriv ss x0 s a t) (eval_ss ss b)) (rmul (eval_ss ss a) (deriv ss x0 s b t)))
+                     (rmul (eval_ss ss b) (eval_ss ss b))                                   (* quotient rule *)
+  | EPow a n => rmul (rmul (nat_r (S n)) (rpow (eval_ss ss a) n)) (deriv ss x0 s a t)   (* power rule *)
   end.
 
 (** the accumulator: values are Ignore constants or AccumulatedDerivative(elements, f_value) *)
@@ -115,6 +128,19 @@ Fixpoint accum (ss : nat -> R) (x0 : nat) (e : expr) : aval :=
       | AAcc Sp f, AAcc Sp' f' =>
           AAcc (sp_add R radd tiny (el_map (fun x => rmul x f') Sp) (el_map (fun x => rmul x f) Sp')) (rmul f f')
       end
+  | EDiv a b =>
+      match accum ss x0 a, accum ss x0 b with
+      | AConst c, AConst d => AConst (rdiv c d)
+      | AAcc Sp f, AConst d => AAcc (el_map (fun x => rdiv x d) Sp) (rdiv f d)                 (* __truediv__, scalar *)
+      | AConst c, AAcc Sp f => AAcc (el_map (fun x => rmul (rdiv (ropp c) (rmul f f)) x) Sp) (rdiv c f)     (* __rtruediv__, scalar *)
+      | AAcc Sp f, AAcc Sp' f' =>                                  (* ((g * self - f * other) / g ** 2).elements *)
+          AAcc (el_map (fun x => rdiv x (rmul f' f')) (sp_sub_acc (el_map (fun x => rmul f' x) Sp) (el_map (fun x => rmul f x) Sp'))) (rdiv f f')
+      end
+  | EPow a n =>
+      match accum ss x0 a with
+      | AConst c => AConst (rpow c (S n))
+      | AAcc Sp f => AAcc (el_map (fun x => rmul (rmul (nat_r (S n)) (rpow f n)) x) Sp) (rpow f (S n))
+      end
   end.
 
 (** SimpleBlock._jacobian keeps the (o, i) entry iff the accumulator is an AccumulatedDerivative with a
@@ -127,13 +153,13 @@ Definition jac_entry (ss : nat -> R) (x0 : nat) (e : expr) : option (sp R) :=
 End SimpleBlk.
 
 Arguments EVar {R}. Arguments ENum {R}. Arguments EShift {R}. Arguments ESs {R}. Arguments ENeg {R}.
-Arguments EAdd {R}. Arguments ESub {R}. Arguments EMul {R}.
+Arguments EAdd {R}. Arguments ESub {R}. Arguments EMul {R}. Arguments EDiv {R}. Arguments EPow {R}.
 Arguments AConst {R}. Arguments AAcc {R}.
 
 (** Z instance for the correspondence check *)
-Definition zeval_ss := eval_ss Z Z.add Z.mul Z.sub Z.opp.
-Definition zeval_td := eval_td Z Z.add Z.mul Z.sub Z.opp.
-Definition zjac := jac_entry Z 1 Z.add Z.mul Z.sub Z.opp (fun x => x =? 0).
+Definition zeval_ss := eval_ss Z 1 Z.add Z.mul Z.sub Z.opp Z.div.
+Definition zeval_td := eval_td Z 1 Z.add Z.mul Z.sub Z.opp Z.div.
+Definition zjac := jac_entry Z 0 1 Z.add Z.mul Z.sub Z.opp Z.div (fun x => x =? 0).
 Definition lookup_nat (l : list Z) (x : nat) : Z := nth x l 0.
 Definition path_env (paths : list (list Z)) (ss : list Z) (x : nat) (t : Z) : Z :=
   if t <? 0 then 0 else nth (Z.to_nat t) (nth x paths []) (lookup_nat ss x).
